@@ -142,11 +142,22 @@ func RunScanLogic(fsys FileSystem, pkgLoader PackageLoader, target string, opts 
 	}
 
 	// Deterministic Sort
-	sort.Slice(allAlerts, func(i, j int) bool {
+	sort.SliceStable(allAlerts, func(i, j int) bool {
 		if allAlerts[i].MatchedFunction != allAlerts[j].MatchedFunction {
 			return allAlerts[i].MatchedFunction < allAlerts[j].MatchedFunction
 		}
-		return allAlerts[i].SignatureName < allAlerts[j].SignatureName
+		if allAlerts[i].SignatureName != allAlerts[j].SignatureName {
+			return allAlerts[i].SignatureName < allAlerts[j].SignatureName
+		}
+		// Same-named functions of different files can hit the same signature: break the tie on
+		// the remaining content, otherwise the order follows worker completion order.
+		if allAlerts[i].SignatureID != allAlerts[j].SignatureID {
+			return allAlerts[i].SignatureID < allAlerts[j].SignatureID
+		}
+		if allAlerts[i].Confidence != allAlerts[j].Confidence {
+			return allAlerts[i].Confidence > allAlerts[j].Confidence
+		}
+		return fmt.Sprint(allAlerts[i].MatchDetails) < fmt.Sprint(allAlerts[j].MatchDetails)
 	})
 
 	summary := models.ScanSummary{TotalAlerts: len(allAlerts)}
